@@ -5,6 +5,7 @@ use crate::engine_sr::explore;
 use crate::refcbor::V;
 use crate::refmodel::Side;
 use crate::reqcheck::*;
+use crate::spaces::*;
 use crate::spec::*;
 use serde_json::{json, Value};
 
@@ -28,13 +29,7 @@ pub fn run(ctx: &'static Ctx) {
         let n = count_masks(&sh.plan, full, 0);
         explore(
             ctx,
-            Lattice {
-                sh: sh.clone(),
-                free: full,
-                base: 0,
-                label: "(all optional members)".into(),
-                check: |sh: &Shared, mask: u64| compare(P, &sh.target, &sh.plan.build(mask, &[])),
-            },
+            request_lattice(P, &sh, full, 0, None, "(all optional members)"),
             Some(n),
             "complete: every subset of optional members, nested members enabled only under their parent",
         );
@@ -46,12 +41,7 @@ pub fn run(ctx: &'static Ctx) {
         let expect: u64 = anchors.iter().map(|m| count_deviations(&sh.plan, *m, bound)).sum();
         explore(
             ctx,
-            Deviations {
-                sh: sh.clone(),
-                anchors,
-                bound,
-                check: |sh: &Shared, mask: u64, devs: &[(usize, usize)]| compare(P, &sh.target, &sh.plan.build(mask, devs)),
-            },
+            request_deviations(P, &sh, anchors, bound),
             Some(expect),
             &format!("every combination of <= {} leaves moved to another menu value, from the minimal and the full anchor", bound),
         );
